@@ -34,6 +34,7 @@ def collect(props):
 
 
 def run_one(pid, patch, tier, scale, only=None):
+    patch = os.path.abspath(patch)
     scratch = tempfile.mkdtemp(prefix="verif_mut_", dir=os.environ.get("VERIF_SCRATCH", "/tmp"))
     try:
         subprocess.run(["rsync", "-a", "--exclude", ".git", "--exclude", "htmlcov", "--exclude", "__pycache__",
@@ -41,7 +42,8 @@ def run_one(pid, patch, tier, scale, only=None):
         r = subprocess.run(["patch", "-p1", "-s", "-i", patch], cwd=scratch, capture_output=True, text=True)
         if r.returncode != 0:
             return "PATCH-FAILED", r.stdout + r.stderr, 0.0
-        env = dict(os.environ, VERIF_REPO=scratch, VERIF_NO_JAX_CACHE=os.environ.get("VERIF_NO_JAX_CACHE", ""))
+        env = dict(os.environ, VERIF_REPO=scratch, VERIF_NO_JAX_CACHE=os.environ.get("VERIF_NO_JAX_CACHE", ""),
+                   VERIF_FOUND_DIR=os.path.join(scratch, "_verif_found"))
         env.pop("PYTHONPATH", None)
         cmd = ["/venv/bin/python", os.path.join(HERE, "check.py"), pid, "--tier", tier, "--no-evidence",
                "--scale", str(scale)]
@@ -54,10 +56,8 @@ def run_one(pid, patch, tier, scale, only=None):
         lines = [l for l in r.stdout.splitlines() if l.startswith(("violation", "HARNESS"))]
         return status, "\n".join(lines[:6]) if lines else r.stdout[-800:] + r.stderr[-800:], dt
     finally:
+        # replay files written for mutants live in the scratch copy (VERIF_FOUND_DIR)
         shutil.rmtree(scratch, ignore_errors=True)
-        # replay files written for mutants are not evidence about /repo
-        for f in glob.glob(os.path.join(HERE, "replays", "found", "*.json")):
-            pass
 
 
 def main():
@@ -68,6 +68,7 @@ def main():
     ap.add_argument("--patch", default=None)
     ap.add_argument("--only", default=None)
     ap.add_argument("--verbose", "-v", action="store_true")
+    ap.add_argument("--json", default=None, help="write the kill table to this file")
     a = ap.parse_args()
     props = [p.upper() for p in a.props]
     items = [(props[0], a.patch)] if a.patch else collect(props)
@@ -82,6 +83,9 @@ def main():
         table.append({"property": pid, "patch": name, "status": status, "wall_s": round(dt, 1)})
     killed = sum(t["status"] == "KILLED" for t in table)
     print(f"{killed}/{len(table)} killed")
+    if a.json:
+        with open(a.json, "w") as f:
+            json.dump(table, f, indent=1)
     return 0 if killed == len(table) else 1
 
 
